@@ -1,6 +1,7 @@
 import Driver.Util
 import Driver.MD
 import Driver.Cmds
+import Driver.SpecCmd
 /-! Line-protocol driver: one command per input line, one output line per input line. -/
 open Drv
 
@@ -21,6 +22,8 @@ def dispatch (line : String) : String :=
   | "parse" :: a => cmdParse a
   | "prepass" :: a => cmdPrepass a
   | "allowed" :: a => cmdAllowed a
+  | "spec" :: a => cmdSpec a
+  | "specload" :: a => cmdSpecLoad a
   | "ping" :: _ => "pong"
   | _ => "bad-cmd"
 
